@@ -8,10 +8,17 @@
 (* directory on another device raises the cross-device error.              *)
 (* Termination is stated as safety: the ancestor list never exceeds the    *)
 (* number of directories.  All link graphs over N directories.             *)
+(* `beyond`: IGNORE entries for everything that lies beyond a link leading *)
+(* back to an ancestor (path of the link + child): the link itself is not   *)
+(* ignored, so the loop must be reported all the same.                      *)
+(* TopIdentityLost = TRUE reproduces F30: the identity of the start         *)
+(* directory is missing from every ancestor list (the walk was started at   *)
+(* a path with a trailing slash), so a link back to it is only noticed one  *)
+(* level further down - never, if that level is pruned.                     *)
 (***************************************************************************)
 EXTENDS WalkRef, TLC
 
-CONSTANTS N
+CONSTANTS N, TopIdentityLost
 
 Dirs == 1..N
 (* a fixed physical tree: 1 is the root, 2 and 3 its children, 4 a child of 2, ... *)
@@ -21,9 +28,10 @@ TreeEdges == { <<Parent(n), n>> : n \in Dirs \ {1} }
 VARIABLES links,      \* set of <<from, to>>: directory symlinks
           ignored,    \* set of edges pruned by IGNORE entries
           foreign, onefs,
+          beyond,     \* what lies beyond a loop-closing link is IGNOREd
           stack,      \* Seq(Seq(dir id)): pending logical directories, as ancestor chains ending in the dir
           out
-vars == <<links, ignored, foreign, onefs, stack, out>>
+vars == <<links, ignored, foreign, onefs, beyond, stack, out>>
 
 Edges == (TreeEdges \cup links) \ ignored
 
@@ -32,24 +40,27 @@ Init ==
     /\ Cardinality(links) <= 3
     /\ ignored \in SUBSET (TreeEdges \cup links) /\ Cardinality(ignored) <= 1
     /\ foreign \in SUBSET (Dirs \ {1}) /\ Cardinality(foreign) <= 1
-    /\ onefs \in BOOLEAN
+    /\ onefs \in BOOLEAN /\ beyond \in BOOLEAN
     /\ stack = << <<1>> >> /\ out = "walking"
 
 Step ==
     /\ out = "walking" /\ stack # <<>>
     /\ LET chain == Head(stack)
            d == chain[Len(chain)]
-           anc == { chain[k] : k \in 1..(Len(chain) - 1) }
+           anc == { chain[k] : k \in (IF TopIdentityLost THEN 2 ELSE 1)..(Len(chain) - 1) }
+           \* the children of a directory reached through a loop-closing link are pruned by `beyond`
+           closed == \E k \in 1..(Len(chain) - 1) : chain[k] = d
+           kids == IF beyond /\ closed THEN {} ELSE Succ(Edges, d)
        IN IF onefs /\ d \in foreign THEN out' = "xdev" /\ UNCHANGED stack
           ELSE IF d \in anc THEN out' = "loop" /\ UNCHANGED stack
-          ELSE /\ stack' = [k \in 1..Cardinality(Succ(Edges, d)) |->
-                               chain \o << CHOOSE c \in Succ(Edges, d) :
-                                   Cardinality({ x \in Succ(Edges, d) : x < c }) = k - 1 >>] \o Tail(stack)
+          ELSE /\ stack' = [k \in 1..Cardinality(kids) |->
+                               chain \o << CHOOSE c \in kids :
+                                   Cardinality({ x \in kids : x < c }) = k - 1 >>] \o Tail(stack)
                /\ UNCHANGED out
-    /\ UNCHANGED <<links, ignored, foreign, onefs>>
+    /\ UNCHANGED <<links, ignored, foreign, onefs, beyond>>
 
 Finish == /\ out = "walking" /\ stack = <<>> /\ out' = "completes"
-          /\ UNCHANGED <<links, ignored, foreign, onefs, stack>>
+          /\ UNCHANGED <<links, ignored, foreign, onefs, beyond, stack>>
 
 Next == Step \/ Finish
 Spec == Init /\ [][Next]_vars
